@@ -184,7 +184,9 @@ func (d *MarchingCanvas) addFloat1Range(section *marchingSection, chunkPos, min,
 	}
 
 	index := d.chunkIndex_atomic(section, chunkPos)
+	d.chunkMutex.Lock()
 	data := d.float1Data[index]
+	d.chunkMutex.Unlock()
 
 	for z := min.Z; z < max.Z; z++ {
 		for y := min.Y; y < max.Y; y++ {
